@@ -426,4 +426,315 @@ theorem insertTemps_book (cfg : TblCfg) (ok : CfgOK cfg) (pk : PairsOK cfg) (tol
     have := mem_dedupe_sort_filter tol _ _ y hy
     simpa using this
 
+/-! ### the top block -/
+
+/-- a "zero row": plain, ΔT = d, every heat capacity and enthalpy change 0 (what edge rows are) -/
+def ZRow (cfg : TblCfg) (t d : Rat) (r : Row) : Prop :=
+  Plain cfg t r ∧ r.get cfg.dI = some d ∧ ∀ p ∈ cfg.pairs, r.get p.1 = some 0 ∧ r.get p.2 = some 0
+
+theorem ZRow.book {cfg : TblCfg} {t d : Rat} {r : Row} (h : ZRow cfg t d r) : Book cfg d r :=
+  ⟨h.2.1, fun p hp => ⟨0, (h.2.2 p hp).1, by rw [(h.2.2 p hp).2]; simp⟩⟩
+
+theorem ZRow.numeric {cfg : TblCfg} {t d : Rat} {r : Row} (h : ZRow cfg t d r) :
+    ∀ p ∈ cfg.pairs, (∃ c, r.get p.1 = some c) ∧ ∃ c, r.get p.2 = some c :=
+  fun p hp => ⟨⟨0, (h.2.2 p hp).1⟩, ⟨0, (h.2.2 p hp).2⟩⟩
+
+theorem edgeRow_Z (cfg : TblCfg) (ok : CfgOK cfg) (pk : PairsOK cfg) (nb : Row) (t dt : Rat)
+    (hnb : ∀ p ∈ cfg.pairs, (∃ c, nb.get p.1 = some c) ∧ ∃ c, nb.get p.2 = some c) :
+    ZRow cfg t dt (edgeRow cfg nb t dt) := by
+  obtain ⟨e1, e2, _⟩ := edgeRow_book cfg ok pk nb t dt hnb
+  refine ⟨e1, e2.1, ?_⟩
+  intro p hp
+  have hcp : (edgeRow cfg nb t dt).get p.1 = some 0 := by
+    obtain ⟨h1, h2, h3⟩ := pk.cpPlain p hp
+    obtain ⟨⟨c, hc⟩, _⟩ := hnb p hp
+    unfold edgeRow
+    rw [get_range_map _ _ _ (pk.cpLt p hp)]
+    have h3' : cfg.interp.contains p.1 = false := by
+      rw [← Bool.not_eq_true]; intro h; exact h3 (List.contains_iff_mem.mp h)
+    simp only [h1, h2, h3', if_false, Bool.false_eq_true, hc, Option.map_some]
+  have hdh : (edgeRow cfg nb t dt).get p.2 = some 0 := by
+    obtain ⟨h3, h1, h2⟩ := ok.dh p hp
+    obtain ⟨_, ⟨c, hc⟩⟩ := hnb p hp
+    unfold edgeRow
+    rw [get_range_map _ _ _ (pk.dhLt p hp)]
+    have h3' : cfg.interp.contains p.2 = false := by
+      rw [← Bool.not_eq_true]; intro h; exact h3 (List.contains_iff_mem.mp h)
+    simp only [h1, h2, h3', if_false, Bool.false_eq_true, hc, Option.map_some]
+  exact ⟨hcp, hdh⟩
+
+theorem ZRow.put_dI {cfg : TblCfg} (ok : CfgOK cfg) (pk : PairsOK cfg) {t d : Rat} {r : Row} (h : ZRow cfg t d r) (d' : Rat) :
+    ZRow cfg t d' (r.put cfg.dI (some d')) := by
+  obtain ⟨a1, a2, a3, a4⟩ := put_dI_facts cfg ok pk r d' h.1.1
+  refine ⟨⟨a1, by rw [a3]; exact h.1.2.1, fun p hp => by rw [a4 p hp]; exact h.1.2.2 p hp⟩, a2, ?_⟩
+  intro p hp
+  refine ⟨by rw [a4 p hp]; exact (h.2.2 p hp).1, ?_⟩
+  rw [Row.get_put r cfg.dI p.2 _ (fun e => (ok.dh p hp).2.2 e.symm)]
+  exact (h.2.2 p hp).2
+
+/-- relation between a row and the row below it in a table that keeps its books -/
+def LinkR (cfg : TblCfg) (ra rb : Row) : Prop :=
+  ∃ ta tb, ra.get cfg.tI = some ta ∧ rb.get cfg.tI = some tb ∧ Book cfg (ta - tb) rb ∧ RowLen cfg rb
+
+theorem chain_of_linked (cfg : TblCfg) : ∀ (rows : List Row) (h : Row) (a : Rat), h.get cfg.tI = some a →
+    LinkedFrom cfg a rows → List.IsChain (LinkR cfg) (h :: rows) := by
+  intro rows
+  induction rows with
+  | nil => intro h a _ _; simp
+  | cons r rows ih =>
+    intro h a ha hl
+    obtain ⟨t, ht, hb, hlen, hrest⟩ := hl
+    rw [List.isChain_cons_cons]
+    exact ⟨⟨a, t, ha, ht, hb, hlen⟩, ih r t ht hrest⟩
+
+theorem linked_of_chain (cfg : TblCfg) : ∀ (rows : List Row) (h : Row) (a : Rat), h.get cfg.tI = some a →
+    List.IsChain (LinkR cfg) (h :: rows) → LinkedFrom cfg a rows := by
+  intro rows
+  induction rows with
+  | nil => intro _ _ _ _; trivial
+  | cons r rows ih =>
+    intro h a ha hc
+    rw [List.isChain_cons_cons] at hc
+    obtain ⟨⟨ta, tb, h1, h2, h3, h4⟩, hrest⟩ := hc
+    rw [ha] at h1
+    cases h1
+    exact ⟨tb, h2, h3, h4, ih r tb h2 hrest⟩
+
+/-- (temperature, ΔT) of rows built upwards from temperature `prev`: ΔT is the gap to the row below -/
+def upTD : Rat → List Rat → List (Rat × Rat)
+  | _, [] => []
+  | prev, t :: ts => (t, t - prev) :: upTD t ts
+
+def GapsUp : Rat → List (Rat × Rat) → Prop
+  | _, [] => True
+  | below, td :: rest => td.2 = td.1 - below ∧ GapsUp td.1 rest
+
+theorem gapsUp_upTD : ∀ (ts : List Rat) (prev : Rat), GapsUp prev (upTD prev ts) := by
+  intro ts
+  induction ts with
+  | nil => intro _; trivial
+  | cons t ts ih => intro prev; exact ⟨rfl, ih t⟩
+
+/-- rows built upwards from `nb`: zero rows whose ΔT is the gap to the row below -/
+theorem edgeChain_up (cfg : TblCfg) (ok : CfgOK cfg) (pk : PairsOK cfg) :
+    ∀ (ts : List Rat) (nb : Row) (prevT : Rat),
+      (∀ p ∈ cfg.pairs, (∃ c, nb.get p.1 = some c) ∧ ∃ c, nb.get p.2 = some c) →
+      (prevT :: ts).Pairwise (fun a b => a < b) →
+      List.Forall₂ (fun r (td : Rat × Rat) => ZRow cfg td.1 td.2 r) (edgeChain cfg nb prevT ts) (upTD prevT ts) := by
+  intro ts
+  induction ts with
+  | nil => intro _ _ _ _; simp [edgeChain, upTD]
+  | cons t ts ih =>
+    intro nb prevT hnb hasc
+    have hlt : prevT < t := (List.pairwise_cons.mp hasc).1 t (by simp)
+    have habs : rabs (t - prevT) = t - prevT := by unfold rabs; rw [if_neg (by linarith)]
+    simp only [edgeChain, upTD]
+    have hz := edgeRow_Z cfg ok pk nb t (rabs (t - prevT)) hnb
+    refine List.Forall₂.cons (by simp only; have hz' := hz; rw [habs] at hz'; rw [habs]; exact hz') ?_
+    exact ih _ t hz.numeric (List.pairwise_cons.mp hasc).2
+
+/-- after the ΔT shift every built row is linked to the row above it (the list is ascending) -/
+theorem shiftDT_chain (cfg : TblCfg) (ok : CfgOK cfg) (pk : PairsOK cfg) :
+    ∀ (rows : List Row) (tds : List (Rat × Rat)) (below : Rat),
+      List.Forall₂ (fun r (td : Rat × Rat) => ZRow cfg td.1 td.2 r) rows tds → GapsUp below tds →
+      List.IsChain (fun lower upper => LinkR cfg upper lower) (shiftDT cfg rows) ∧
+      (shiftDT cfg rows).map (fun r => r.get cfg.tI) = tds.map (fun td => some td.1) ∧
+      ∀ r ∈ shiftDT cfg rows, ∃ t d, ZRow cfg t d r := by
+  intro rows
+  induction rows with
+  | nil => intro tds _ h _; cases h; simp [shiftDT]
+  | cons r1 rows ih =>
+    intro tds below h hgap
+    cases h with
+    | cons hz1 hrest =>
+      rename_i td1 tds'
+      cases rows with
+      | nil =>
+        cases hrest
+        simp only [shiftDT, List.isChain_singleton, List.map_cons, List.map_nil, List.mem_singleton, true_and]
+        have hz := hz1.put_dI ok pk 0
+        exact ⟨by rw [hz.1.2.1], fun r hr => by subst hr; exact ⟨_, _, hz⟩⟩
+      | cons r2 rest =>
+        cases hrest with
+        | cons hz2 hrest2 =>
+          rename_i td2 tds''
+          obtain ⟨_, hd2, hgap'⟩ := hgap
+          obtain ⟨ic, it, iz⟩ := ih (td2 :: tds'') td1.1 (List.Forall₂.cons hz2 hrest2) ⟨hd2, hgap'⟩
+          have hz1' := hz1.put_dI ok pk td2.2
+          have hget : r2.get cfg.dI = some td2.2 := hz2.2.1
+          simp only [shiftDT]
+          rw [hget]
+          -- the head of the shifted rest has temperature td2.1
+          have hhead : ∃ s srest, shiftDT cfg (r2 :: rest) = s :: srest ∧ s.get cfg.tI = some td2.1 := by
+            cases hs : shiftDT cfg (r2 :: rest) with
+            | nil => rw [hs] at it; simp at it
+            | cons s srest =>
+              rw [hs] at it
+              simp only [List.map_cons, List.cons.injEq] at it
+              exact ⟨s, srest, rfl, it.1⟩
+          obtain ⟨s, srest, hs, hst⟩ := hhead
+          refine ⟨?_, ?_, ?_⟩
+          · rw [hs, List.isChain_cons_cons]
+            rw [hs] at ic
+            refine ⟨⟨td2.1, td1.1, hst, hz1'.1.2.1, by rw [← hd2]; exact hz1'.book, hz1'.1.1⟩, ic⟩
+          · simp only [List.map_cons, hz1'.1.2.1, it]
+          · intro r hr
+            rcases List.mem_cons.mp hr with rfl | hr
+            · exact ⟨_, _, hz1'⟩
+            · exact iz r hr
+
+/-- what the top block delivers: rows (hottest first) linked downwards, all zero rows, the lowest of
+    them at temperature `a0`, and the old top row re-based on it -/
+theorem topBlock_book (cfg : TblCfg) (ok : CfgOK cfg) (pk : PairsOK cfg) (nb : Row) (nbT d0 : Rat) (a0 : Rat) (asc : List Rat)
+    (tops : List Rat) (hrev : tops.reverse = a0 :: asc) (hasc : (nbT :: a0 :: asc).Pairwise (fun a b => a < b))
+    (hz : ZRow cfg nbT d0 nb) :
+    let tb := topBlock cfg nb nbT tops
+    List.IsChain (LinkR cfg) tb.1 ∧ (∀ r ∈ tb.1, ∃ t d, ZRow cfg t d r) ∧ tb.1 ≠ [] ∧
+      (∀ x ∈ tb.1.getLast?, x.get cfg.tI = some a0) ∧ ZRow cfg nbT (a0 - nbT) tb.2 := by
+  unfold topBlock
+  rw [hrev]
+  simp only
+  have hbuilt := edgeChain_up cfg ok pk (a0 :: asc) nb nbT hz.numeric hasc
+  have hgaps := gapsUp_upTD (a0 :: asc) nbT
+  -- facts about the (possibly shifted) ascending rows
+  have hsh : ∀ sh : List Row,
+      (sh = edgeChain cfg nb nbT (a0 :: asc) ∧ (edgeChain cfg nb nbT (a0 :: asc)).length ≤ 1) ∨
+      (sh = shiftDT cfg (edgeChain cfg nb nbT (a0 :: asc))) →
+      List.IsChain (fun lower upper => LinkR cfg upper lower) sh ∧
+      sh.map (fun r => r.get cfg.tI) = (upTD nbT (a0 :: asc)).map (fun td => some td.1) ∧
+      ∀ r ∈ sh, ∃ t d, ZRow cfg t d r := by
+    intro sh hcase
+    rcases hcase with ⟨rfl, hlen⟩ | rfl
+    · -- a single new row: kept as built
+      cases asc with
+      | nil =>
+        simp only [edgeChain, upTD] at hbuilt ⊢
+        cases hbuilt with
+        | cons hz0 _ =>
+          exact ⟨by simp, by simp [hz0.1.2.1], fun r hr => by simp at hr; subst hr; exact ⟨_, _, hz0⟩⟩
+      | cons a1 asc' => simp [edgeChain] at hlen
+    · exact shiftDT_chain cfg ok pk _ _ nbT hbuilt hgaps
+  have hpick : (if (edgeChain cfg nb nbT (a0 :: asc)).length ≤ 1 then edgeChain cfg nb nbT (a0 :: asc)
+      else shiftDT cfg (edgeChain cfg nb nbT (a0 :: asc))) = (if (edgeChain cfg nb nbT (a0 :: asc)).length ≤ 1 then edgeChain cfg nb nbT (a0 :: asc)
+      else shiftDT cfg (edgeChain cfg nb nbT (a0 :: asc))) := rfl
+  obtain ⟨hc, ht, hzr⟩ := hsh (if (edgeChain cfg nb nbT (a0 :: asc)).length ≤ 1 then edgeChain cfg nb nbT (a0 :: asc)
+      else shiftDT cfg (edgeChain cfg nb nbT (a0 :: asc))) (by
+    by_cases hl : (edgeChain cfg nb nbT (a0 :: asc)).length ≤ 1
+    · rw [if_pos hl]; exact Or.inl ⟨rfl, hl⟩
+    · rw [if_neg hl]; exact Or.inr rfl)
+  set sh := (if (edgeChain cfg nb nbT (a0 :: asc)).length ≤ 1 then edgeChain cfg nb nbT (a0 :: asc)
+      else shiftDT cfg (edgeChain cfg nb nbT (a0 :: asc))) with hshdef
+  -- the head of the ascending rows sits at a0
+  have hne : sh ≠ [] := by
+    intro h0; rw [h0] at ht; simp [upTD] at ht
+  refine ⟨List.isChain_reverse.mpr hc, fun r hr => hzr r (List.mem_reverse.mp hr), by simpa using hne, ?_, hz.put_dI ok pk (a0 - nbT)⟩
+  intro x hx
+  rw [List.getLast?_reverse] at hx
+  cases hs : sh with
+  | nil => exact absurd hs hne
+  | cons s srest =>
+    rw [hs] at hx ht
+    simp only [List.head?_cons, Option.mem_def, Option.some.injEq] at hx
+    subst hx
+    simp only [upTD, List.map_cons, List.cons.injEq] at ht
+    exact ht.1
+
+/-- **The books survive any insertion** (also above the table): if the first row is a zero row (ΔT
+    numeric, all heat capacities and enthalpy changes 0 — the top row of a problem table) and every
+    later row is linked to the row above it, then in the table returned for ANY requested
+    temperatures every row after the first is linked to the row above it and the first row keeps
+    its books. -/
+theorem insertTemps_book_full (cfg : TblCfg) (ok : CfgOK cfg) (pk : PairsOK cfg) (tol : Rat) (htol : 0 ≤ tol)
+    (r0 : Row) (rest : List Row) (t0 d0 : Rat) (vals : List Rat)
+    (hz0 : ZRow cfg t0 d0 r0) (hl : LinkedFrom cfg t0 rest) (out : List Row) (n : Nat)
+    (he : insertTemps cfg tol (r0 :: rest) vals = .ok (out, n)) :
+    ∃ h tail, out = h :: tail ∧ (∃ t d, Plain cfg t h ∧ Book cfg d h) ∧ List.IsChain (LinkR cfg) out := by
+  have hp : Plain cfg t0 r0 := hz0.1
+  obtain ⟨ts, hts, hlen, hin, hfin, hend⟩ := linked_temps cfg rest t0 hl
+  have hT : temps cfg (r0 :: rest) = some (t0 :: ts) := by
+    simp [temps, List.mapM_cons, Row.temp, hp.2.1, hts]
+  unfold insertTemps at he
+  rw [hT] at he
+  simp only at he
+  by_cases hsd : (!strictlyDesc (t0 :: ts)) = true
+  · rw [if_pos hsd] at he; cases he
+  rw [if_neg hsd] at he
+  -- name the pieces
+  set need := needInsert tol (t0 :: ts) vals with hneed
+  set tLast := (t0 :: ts).getLast (List.cons_ne_nil _ _) with htLast
+  set rLast := (r0 :: rest).getLast (List.cons_ne_nil _ _) with hrLast
+  set tops := dedupeMono tol (sortDesc (need.filter fun v => decide (t0 < v))) with htops
+  set bots := dedupeMono tol (sortDesc (need.filter fun v => decide (v < tLast))) with hbots
+  set mid := need.filter (fun v => !(decide (t0 < v)) && !(decide (v < tLast))) with hmid
+  -- the bottom block hangs below whatever precedes it
+  have hbot : LinkedFrom cfg tLast (bottomBlock cfg rLast tLast bots) := by
+    unfold bottomBlock
+    apply edgeChain_linked_down cfg ok pk
+    · cases hr : rest with
+      | nil => simp only [hrLast, hr, List.getLast_singleton]; exact hz0.numeric
+      | cons x xs =>
+        have hmem : (r0 :: x :: xs).getLast (List.cons_ne_nil _ _) ∈ x :: xs := by
+          rw [List.getLast_cons (List.cons_ne_nil _ _)]; exact List.getLast_mem _
+        obtain ⟨d, hd⟩ := linked_mem_book cfg rest t0 hl rLast (by rw [hrLast]; simp only [hr]; exact hmem)
+        exact book_numeric hd
+    · apply List.pairwise_cons.mpr
+      refine ⟨?_, dedupeMono_sortDesc_pairwise tol htol _⟩
+      intro y hy
+      have := mem_dedupe_sort_filter tol _ _ y hy
+      simpa using this
+  cases hrev : tops.reverse with
+  | nil =>
+    have htn : tops = [] := by simpa using hrev
+    rw [htn] at he
+    obtain ⟨h, tail, hw, hph, hbh, hlt, het⟩ := walk_book cfg ok pk tol mid (rest.zip ts) r0 t0 d0 hp hz0.book hin
+    simp only [topBlock, List.reverse_nil, List.nil_append, hw] at he
+    cases he
+    have hlink : LinkedFrom cfg t0 (tail ++ bottomBlock cfg rLast tLast bots) := by
+      apply linked_append cfg _ _ t0 hlt
+      rw [het, hfin, hend, lastTemp_eq_getLast]
+      exact hbot
+    exact ⟨h, tail ++ bottomBlock cfg rLast tLast bots, by simp, ⟨t0, d0, hph, hbh⟩,
+      by simpa using chain_of_linked cfg _ h t0 hph.2.1 hlink⟩
+  | cons a0 asc =>
+    -- the requested temperatures above the table, ascending from the old top row
+    have hdesc : tops.Pairwise (fun a b => b < a) := dedupeMono_sortDesc_pairwise tol htol _
+    have habove : ∀ y ∈ tops, t0 < y := by
+      intro y hy
+      have := mem_dedupe_sort_filter tol _ _ y hy
+      simpa using this
+    have hasc : (t0 :: a0 :: asc).Pairwise (fun a b => a < b) := by
+      apply List.pairwise_cons.mpr
+      constructor
+      · intro y hy
+        exact habove y (by rw [← List.mem_reverse, hrev]; exact hy)
+      · rw [← hrev, List.pairwise_reverse]; exact hdesc
+    obtain ⟨tc, tz, tne, tlast, tr0⟩ := topBlock_book cfg ok pk r0 t0 d0 a0 asc tops hrev hasc hz0
+    set tb := topBlock cfg r0 t0 tops with htb
+    obtain ⟨h, tail, hw, hph, hbh, hlt, het⟩ := walk_book cfg ok pk tol mid (rest.zip ts) tb.2 t0 (a0 - t0) tr0.1 tr0.book hin
+    have he' : out = tb.1 ++ (h :: tail) ++ bottomBlock cfg rLast tLast bots := by
+      rw [hw] at he
+      cases he
+      rfl
+    have hlink : LinkedFrom cfg t0 (tail ++ bottomBlock cfg rLast tLast bots) := by
+      apply linked_append cfg _ _ t0 hlt
+      rw [het, hfin, hend, lastTemp_eq_getLast]
+      exact hbot
+    have hbody : List.IsChain (LinkR cfg) (h :: (tail ++ bottomBlock cfg rLast tLast bots)) :=
+      chain_of_linked cfg _ h t0 hph.2.1 hlink
+    cases htop : tb.1 with
+    | nil => exact absurd htop tne
+    | cons hTop tTop =>
+      obtain ⟨tt, td, hzt⟩ := tz hTop (by rw [htop]; simp)
+      refine ⟨hTop, tTop ++ (h :: tail) ++ bottomBlock cfg rLast tLast bots, by rw [he', htop]; simp,
+        ⟨tt, td, hzt.1, hzt.book⟩, ?_⟩
+      rw [he']
+      have e : tb.1 ++ (h :: tail) ++ bottomBlock cfg rLast tLast bots
+          = tb.1 ++ (h :: (tail ++ bottomBlock cfg rLast tLast bots)) := by simp
+      rw [e, List.isChain_append]
+      refine ⟨tc, hbody, ?_⟩
+      intro x hx y hy
+      simp only [List.head?_cons, Option.mem_def, Option.some.injEq] at hy
+      subst hy
+      exact ⟨a0, t0, tlast x hx, hph.2.1, hbh, hph.1⟩
+
 end OP
